@@ -63,6 +63,9 @@ type HostArr struct{ E []interface{} }
 
 // hostConv converts v for a Go parameter of type typ; false = no conversion exists.
 func hostConv(v interface{}, typ string) (interface{}, bool) {
+	if cv, ok, done := hostConvExt(v, typ); done { // host_conv.go
+		return cv, ok
+	}
 	switch typ {
 	case "any":
 		return v, true
@@ -202,6 +205,7 @@ type Outcome struct {
 
 type invocation struct {
 	defers []deferred
+	sw     map[*N]*N // the case that matched last, per switch statement (model_switchagain.go: counters only)
 }
 type deferred struct {
 	fn   *Func
@@ -521,11 +525,13 @@ func (m *Model) stmt1(s *N, sc *Scope) ctl {
 		return ok0
 	case "loop":
 		ls := m.newScope("loop", sc)
+		lastCont, rounds := false, 0
 		for {
 			m.step()
 			if len(s.Ns) > 0 {
 				v, c := m.eval(s.Ns[0], ls)
 				if c.s != sNone {
+					m.headerRaised(c, "loop_condition", lastCont, rounds)
 					return c
 				}
 				if !m.truthy(v) {
@@ -537,6 +543,7 @@ func (m *Model) stmt1(s *N, sc *Scope) ctl {
 				bs = m.newScope("iter", ls)
 			}
 			c := m.block(s.Ss[0], bs)
+			lastCont, rounds = c.s == sCont, rounds+1
 			if brk, out := m.loopCtl(c, "loop"); out != nil {
 				return *out
 			} else if brk {
@@ -551,11 +558,13 @@ func (m *Model) stmt1(s *N, sc *Scope) ctl {
 				return c
 			}
 		}
+		lastCont, rounds := false, 0
 		for {
 			m.step()
 			if s.Ns[1].K != "none" {
 				v, c := m.eval(s.Ns[1], ls)
 				if c.s != sNone {
+					m.headerRaised(c, "cfor_condition", lastCont, rounds)
 					return c
 				}
 				if !m.truthy(v) {
@@ -567,6 +576,7 @@ func (m *Model) stmt1(s *N, sc *Scope) ctl {
 				bs = m.newScope("iter", ls)
 			}
 			c := m.block(s.Ss[0], bs)
+			lastCont, rounds = c.s == sCont, rounds+1
 			if c.s == sCont {
 				m.feat("continue_in_cfor")
 			}
@@ -577,6 +587,7 @@ func (m *Model) stmt1(s *N, sc *Scope) ctl {
 			}
 			if s.Ns[2].K != "none" {
 				if _, c := m.eval(s.Ns[2], ls); c.s != sNone {
+					m.headerRaised(c, "cfor_post", lastCont, rounds)
 					return c
 				}
 			}
@@ -661,6 +672,7 @@ func (m *Model) stmt1(s *N, sc *Scope) ctl {
 				}
 				if m.equal(v, subj) {
 					m.feat("case_matched")
+					m.noteSwitch(s, cn, subj, ss) // model_switchagain.go: counters only
 					return m.block(cn.Ss[0], ss)
 				}
 			}
@@ -688,6 +700,12 @@ func (m *Model) stmt1(s *N, sc *Scope) ctl {
 			}
 			catchScope = cs
 			if s.S != "" {
+				if old, _, ok := cs.lookup(s.S); ok {
+					if _, isErr := old.(*ErrV); isErr {
+						// a catch variable of that name is still live (gen_errflow.go): this try binds its own
+						m.feat("catch_variable_name_already_holds_a_caught_error")
+					}
+				}
 				m.defineVar(cs, s.S, c.err)
 			}
 			c2 := m.block(s.Ss[1], cs)
@@ -712,6 +730,11 @@ func (m *Model) stmt1(s *N, sc *Scope) ctl {
 			return c
 		}
 		m.feat("throw")
+		if ev, ok := v.(*ErrV); ok {
+			// a caught error thrown again: the new error prints as the caught one did
+			m.feat("rethrow_of_a_caught_error")
+			return ctl{s: sErr, err: &ErrV{Msg: ev.Msg, Known: ev.Known}}
+		}
 		return errc(goSprint(v), true)
 	case "ret":
 		switch len(s.Ns) {
@@ -765,6 +788,14 @@ func (m *Model) stmt1(s *N, sc *Scope) ctl {
 		}
 		if call.B {
 			// defer f(a, list...): evaluated like the spread call, at the defer statement
+			if isConvCallee(fn) { // host_conv.go: operands evaluated and converted now, the callee has no effect
+				_, c := m.callHost(fn, args, true, sc)
+				if c.s == sNone {
+					m.feat("defer_registered")
+					m.feat("defer_with_spread_list")
+				}
+				return c
+			}
 			if fn.HP != nil || (fn.Host != "" && fn.Host != "pd") {
 				m.unspec("spread in defer of a host function")
 			}
@@ -1230,6 +1261,9 @@ func (m *Model) callHost(fn *Func, argExprs []*N, spread bool, sc *Scope) (inter
 			}
 		}
 		return nil, ok0
+	}
+	if convReturnsValue(fn) { // host_conv.go: a callee with one fixed parameter hands back the value itself
+		return got[0], ok0
 	}
 	return &List{E: got}, ok0
 }
@@ -1820,7 +1854,8 @@ func (m *Model) equalOK(a, b interface{}) (bool, bool) {
 			return x == y, true
 		}
 	}
-	return false, false
+	// a string and a number, where the spelling of the string leaves no room (model_switchagain.go)
+	return strNumEqual(a, b)
 }
 
 func (m *Model) equal(a, b interface{}) bool {
